@@ -91,6 +91,8 @@ func c13Seq(t *core.Tape, large bool) string {
 			l = 65536 + t.Draw(2000)
 		case 4:
 			l = 4096*(1+t.Draw(16)) + []int{0, -1, 1}[t.Draw(3)]
+		case 5:
+			l = 300000 - t.Draw(3) // the upper end of the quantified range
 		default:
 			l = 66000 + t.Draw(300000-66000+1)
 		}
@@ -230,6 +232,9 @@ func (c13) Run(t *testing.T, tape *core.Tape, rcx *RunCtx) *core.Result {
 		nrec = 7 + tape.Draw(30)
 	default:
 		nrec = 37 + tape.Draw(164)
+		if tape.Chance(15) {
+			nrec = 200 - tape.Draw(2) // the upper end of the quantified range
+		}
 	}
 	if large {
 		nrec = 1 + tape.Draw(4)
@@ -285,7 +290,7 @@ func (c13) Run(t *testing.T, tape *core.Tape, rcx *RunCtx) *core.Result {
 		payload = gz(text)
 		cuts = []int{1, 2, 3, 10, len(payload) - 8, len(payload) - 4, len(payload) - 1}
 	}
-	sc.Cap = []int{0, 1, 2, 1 + tape.Draw(1000)}[tape.Draw(4)]
+	sc.Cap = []int{0, 1, 2, 1 + tape.Draw(1000), 1000, 999}[tape.Weighted(25, 20, 15, 30, 7, 3)]
 	streaming := entry == 0 || entry == 4 || entry == 5
 	var path string
 	if entry >= 2 {
